@@ -61,6 +61,13 @@ func ZZ_C06_Range(k, batch, startMode int) {
 		zzvrf.Assert(errors.Is(err, ErrAhead) || errors.Is(err, ErrDone), "ahead-of-source")
 		zzvrf.Assert(!wrote, "nothing-written-when-ahead")
 	}
+	if k == 0 && start == 0 && err == nil {
+		// no position, no start: the source's current head is the first block indexed
+		zzvrf.Assert(post != nil && len(post.insLog) > 0 && post.insLog[0] == head, "head-block-indexed-when-no-start")
+	}
+	if k == 0 && start == 0 && (stop == 0 || stop >= head) {
+		zzvrf.Assert(err == nil, "first-step-at-head-succeeds")
+	}
 	if post != nil {
 		for i, n := range post.insLog {
 			if k > 0 {
